@@ -384,6 +384,13 @@ func (w *worldA) checkDecoration(tm *traceModel, accepted []*spanRec, d *decisio
 func (w *worldA) checkTicks() {
 	out := w.out
 	byStep := map[int][]*decisionRec{}
+	// steps in which a worker handled a send tick that had fired while it was stalled
+	handledAt := map[[2]int]bool{}
+	for _, tr := range w.tickLog {
+		if tr.handled {
+			handledAt[[2]int{tr.step, tr.worker}] = true
+		}
+	}
 	for _, tm := range w.traces {
 		for _, d := range tm.decisions {
 			byStep[d.step] = append(byStep[d.step], d)
@@ -393,7 +400,7 @@ func (w *worldA) checkTicks() {
 				if d.at.Before(d.deadline) {
 					out.Violate("C03", "decided_before_deadline", siteCollect, "trace#%d decided at t=%v (%s) but its deadline is t=%v (first span t=%v)", tm.idx, d.at.Sub(w.start), d.sendReason, d.deadline.Sub(w.start), d.first.Sub(w.start))
 				}
-				if d.stepK != "tick" {
+				if d.stepK != "tick" && !handledAt[[2]int{d.step, d.worker}] {
 					out.Violate("C03", "decided_outside_send_tick", siteCollect, "trace#%d decided (%s) during a %q step, not a send tick", tm.idx, d.sendReason, d.stepK)
 				}
 				// (3) reported reason precedence
@@ -418,6 +425,9 @@ func (w *worldA) checkTicks() {
 		}
 	}
 	for _, tr := range w.tickLog {
+		if tr.deferred {
+			continue // judged when handled
+		}
 		var decided []*decisionRec
 		for _, d := range byStep[tr.step] {
 			if d.worker == tr.worker && d.sendReason != collect.TraceSendEjectedMemsize {
